@@ -16,7 +16,7 @@ PROPERTY = "C18"
 LEVEL = "exploration"
 RULE = ("case = well-formed file x option combination: HRS all widths 1..40 x heights 1..12 plus large ones, skips 0..20; "
         "MAX widths (multiples of 8 and others) x 9 modes x {-r, length field, -newsroom} x skips; PIX even sides; the "
-        "fixed-size formats in all variants; pipes vs files for the tools that accept them; distinct = (format, geometry, "
+        "fixed-size formats in all variants (25 random contents each, thorough); a seeded random sweep of HRS / MAX geometry x header variant x mode x skip (80 quick, 9000 thorough); pipes vs files for the tools that accept them; distinct = (format, geometry, "
         "options); non-trivial = a complete-size verdict was computed")
 ASSUMPTIONS = ["a well-formed HRS/MAX input carries ceil(width/pixels-per-byte) bytes per row"]
 REQUIRED_COUNTERS = ["size_checks"]
@@ -207,3 +207,31 @@ def cases(tier, seed):
     for vt in (0, 1, 3):
         for sq in (False, True):
             yield c(fmt="vef", vt=vt, sq=sq)
+    # seeded random geometry x option sweep beyond the enumerated grid
+    rng = random.Random(seed * 104729 + 5)
+    for i in range(80 if q else 9000):
+        if i % 2 == 0:
+            w = rng.choice([rng.randint(1, 64), rng.randint(1, 700)])
+            yield c(fmt="hrs", w=w, h=rng.randint(1, 6 if w > 64 else 40), skip=rng.choice([0, 0, rng.randint(1, 40)]))
+        else:
+            how = rng.choice(["rows", "length", "newsroom"])
+            cols = rng.choice([8 * rng.randint(1, 80), rng.randint(1, 600)])
+            rows = rng.randint(1, 30 if cols < 100 else 5)
+            if how == "newsroom" and cols % 8:
+                cols = (cols + 7) // 8 * 8
+            if how == "length" and (cols * rows) % 8:
+                how = "rows"
+            yield c(fmt="max", cols=cols, rows=rows, how=how, mode=rng.choice(modes), skip=rng.choice([0, 0, rng.randint(1, 40)]))
+    if not q:
+        for rep in range(25):
+            for rgb in (True, False):
+                for comp in (True, False):
+                    yield c(fmt="mge", rgb=rgb, comp=comp)
+            yield c(fmt="rat")
+            for two in (False, True):
+                for pat in (True, False):
+                    for preset in ("raw", "mixed"):
+                        yield c(fmt="cm3", two=two, pat=pat, preset=preset)
+            for vt in (0, 1, 3):
+                for sq in (False, True):
+                    yield c(fmt="vef", vt=vt, sq=sq)
